@@ -42,6 +42,8 @@ ASSUMPTIONS = [
     "relays outside the consensus may carry the nickname of a consensus relay (nicknames are not unique); every hop "
     "of Circuit.path must have exactly the fingerprint Tor reported",
     "IPv6 literals may be kept with or without brackets",
+    "SOCKS_USERNAME/SOCKS_PASSWORD keywords (QuotedStrings) may be kept in wire form or unescaped; a quoted value "
+    "containing a blank is not judged, everything else about that line is",
     "in a quarter of the cases a minimal IStreamAttacher is installed after the bootstrap (set_attacher): TorSim then "
     "leaves new streams to the controller and executes the ATTACHSTREAM commands txtorcon sends; streams the attacher "
     "declines stay unattached; the oracle is the same",
@@ -74,6 +76,8 @@ FLOORS = {
               "circuit_died_under_streams": 200, "detached_after_circuit_died": 70,
               "reattached_to_other_circuit": 70, "hop_not_in_consensus": 700, "hop_outside_consensus_named_like_consensus_relay": 350, "cannibalized": 35,
               "closed_after_failed_delivered": 150, "stream_first_seen_in_mid_life": 150, "unattached_by_remap_0": 60,
+              "objects_with_quoted_keywords": 500, "quoted_flag_values_compared": 2500,
+              "flag_values_with_blank_not_judged": 2000,
               "cases_with_attacher": 100, "attachstream_commands": 250, "failed_streams_with_attacher": 100,
               "reach:txtorcon.stream:Stream.update": 4200, "reach:txtorcon.circuit:Circuit.update": 4200,
               "reach:txtorcon.torstate:TorState.circuit_destroy": 700,
@@ -84,7 +88,7 @@ FLOORS = {
                  "reattached_to_other_circuit": 2500, "hop_outside_consensus_named_like_consensus_relay": 8000, "unattached_by_remap_0": 1500},
 }
 
-SIM_STATS = ["unattached_by_remap_0", "failed_closed_pairs", "stream_first_seen_in_mid_life", "circuit_id_reused", "stream_id_reused", "circuit_died_under_streams",
+SIM_STATS = ["objects_with_quoted_keywords", "unattached_by_remap_0", "failed_closed_pairs", "stream_first_seen_in_mid_life", "circuit_id_reused", "stream_id_reused", "circuit_died_under_streams",
              "detached_after_circuit_died", "ended_after_circuit_died", "reattached_after_detach",
              "reattached_to_other_circuit", "hop_not_in_consensus",
              "hop_outside_consensus_named_like_consensus_relay", "cannibalized",
@@ -126,6 +130,28 @@ def _host_eq(got, want):
         return False
     got = str(got)
     return got == want or got == want.strip("[]") or _ip_norm(got) == _ip_norm(want)
+
+
+def flags_equal(got, want, rec=None):
+    """keyword dict of the last line: same keys; a value Tor sent as QuotedString may be kept in its
+    wire form or unescaped; a quoted value with a blank inside is not judged (a client that splits
+    the line on blanks cannot be told what to make of it by the statement)"""
+    from ..refs import kvline
+    if set(got) != set(want):
+        return False
+    for k, v in want.items():
+        if v.startswith('"'):
+            if " " in v:
+                if rec is not None:
+                    rec.count("flag_values_with_blank_not_judged")
+                continue
+            if got[k] not in (v, kvline.unescape(v[1:-1])):
+                return False
+            if rec is not None:
+                rec.count("quoted_flag_values_compared")
+        elif got[k] != v:
+            return False
+    return True
 
 
 def circ_class(m):
@@ -181,8 +207,9 @@ def compare(state, sim, rec=None):
             V("circuit-state", circ_class(m), {"id": cid, "got": c.state, "want": m.status}, who)
         if c.purpose != m.purpose:
             V("circuit-purpose", circ_class(m), {"id": cid, "got": c.purpose, "want": m.purpose}, who)
-        if dict(c.flags) != m.last_keywords:
-            V("circuit-flags", circ_class(m), {"id": cid, "got": dict(c.flags), "want": m.last_keywords}, who)
+        if not flags_equal(dict(c.flags), m.last_keywords, rec):
+            V("circuit-flags", circ_class(m) + (",quoted-value" if any(v.startswith('"') for v in m.last_keywords.values()) else ""),
+              {"id": cid, "got": dict(c.flags), "want": m.last_keywords}, who)
         if list(c.build_flags) != list(m.build_flags):
             V("circuit-build-flags", circ_class(m), {"id": cid, "got": list(c.build_flags), "want": m.build_flags}, who)
         want_path = sim.path_ids(m)
